@@ -50,6 +50,14 @@ def gen_cases(seed, tier):
             kk_ = int(rng.choice([0, 0, 2]))
             dom = {"spec": sp, "rows": gen_geo.param_rows(rng, kk_), "k": kk_,
                    "info": {"kind": "prim", "dim": 3, "dep": False, "relations": ["user_tol"], "desc": "H~tol"}}
+        elif i % 25 == 19:
+            # a rotation with a constant angle / matrix about a pivot that moves with the parameter, several rows
+            for _ in range(400):
+                dom = gen_geo.gen_domain(rng, max_depth=int(rng.integers(0, 2)), allow=("rotate",), dep=True, dim=2, k=int(rng.choice([2, 3, 5])))
+                sp_ = dom["spec"]
+                if sp_.get("op") == "rotate" and isinstance(sp_.get("around"), dict) and not isinstance(sp_.get("angle"), dict) \
+                        and not geo.ref(sp_["d"]).free():
+                    break
         elif i % 25 == 8:
             # operands touching from outside in one point (every seed reaches the contact-point monitor)
             for _ in range(400):
